@@ -37,10 +37,14 @@ def main():
     sdir = os.path.join(HERE, 'seeded')
     ids = sys.argv[1:] or sorted(d for d in os.listdir(sdir) if os.path.isfile(
         os.path.join(sdir, d, 'patch.diff')))
-    first = {}
-    fr = os.path.join(sdir, '_first_run_round2.json')
-    if os.path.exists(fr):
-        first = json.load(open(fr))
+    first = {'caught': {}, 'exit2': {}, 'missed': []}
+    for name in ('_first_run_round2.json', '_first_run_round3.json'):
+        fr = os.path.join(sdir, name)
+        if os.path.exists(fr):
+            d = json.load(open(fr))
+            first['caught'].update(d.get('caught', {}))
+            first['exit2'].update(d.get('exit2', {}))
+            first['missed'] += d.get('missed', [])
     for sid in ids:
         d = os.path.join(sdir, sid)
         prop = re.search(r'C\d\d', sid).group(0)
@@ -76,10 +80,14 @@ def main():
                for k, v in sorted(res.items()) if k != 'error']
         meta = {
             'id': sid, 'property': prop, 'property_title': PROPS.get(prop, ''),
-            'round': 2 if sid.startswith('r2-') else 1,
+            'round': 3 if sid.startswith('r3-') else (
+                2 if sid.startswith('r2-') else 1),
             'source': 'fresh sub-agent given only the property text and a '
                       'scratch worktree of /repo (nothing from /verif)',
             'base_commit': old.get('base_commit', '9b5cc53'),
+            'note': ('the demonstration was confirmed on /repo at 9b5cc53; '
+                     '/repo has since gained fix commit 8a43883 '
+                     '(RANDBETWEEN), which none of the seeded patches touches'),
             'needs_to_manifest': needs(notes) or old.get('needs_to_manifest', ''),
             'confirmed': conf,
             'checks_run': 'every claimed property check (quick tier) on a '
